@@ -8,6 +8,7 @@
 From SV Require Import Base.Bytes Base.BytesP Model.Headers Model.IOSched Spec.ChunkDecode Model.Chunked
                        Spec.RespParse Model.Response Model.WriteFail
                        Proofs.IOSchedP Proofs.ChunkedP Proofs.RespParseP Proofs.ResponseP Proofs.WriteFailP.
+From SV Require Import Base.SrcAst Generated.SourceParams Tie.WriteResponseTie.
 
 (* C08.1  failed_write_is_prefix.  For every response, close flag, writer and body source: the bytes
    accepted by the writer are a prefix of the one correct serialisation [full_wire] (head, then the
@@ -154,6 +155,18 @@ Example c08_nonvacuous :
    res0 = Some (CeWrite EDisconnected) /\ c_ws c1 = WsResponse /\ c_wire c1 = []).
 Proof. vm_compute. repeat split; reflexivity. Qed.
 
+(* C08.src  HttpConn::write_response (src/http_conn.rs) after its state guard, as TRANSLATED ON THIS RUN
+   (props/srcparams.py -> Generated/SourceParams.v: the 500..=599 close range, the statements of the Ok branch; the
+   translator also requires the per-call AsyncWriteCounter, the `else if write_counter.num_bytes_written() > 0
+   { self.shutdown_write() }` branch, the returned result and the two statements of shutdown_write), interpreted by
+   Tie/WriteResponseTie.v, is the connection model the theorems above are about -- for every connection, writer,
+   body source and response. *)
+Theorem c08_write_response_is_the_source :
+  forall reason ct_text c r, eval_write_response reason ct_text c r = conn_write_response reason ct_text c r.
+Proof. exact write_response_tie. Qed.
+Theorem c08_translation_complete : src_problems_write_response = 0%nat.
+Proof. exact write_response_translated. Qed.
+
 Print Assumptions c08_failed_write_is_prefix.
 Print Assumptions c08_partial_then_shutdown.
 Print Assumptions c08_nothing_after_shutdown.
@@ -164,3 +177,5 @@ Print Assumptions c08_oracle_ser_sound.
 Print Assumptions c08_oracle_conn_sound.
 Print Assumptions c08_oracle_conn_any_prior.
 Print Assumptions c08_oracle_session_sound.
+Print Assumptions c08_write_response_is_the_source.
+Print Assumptions c08_translation_complete.
